@@ -15,9 +15,15 @@ def replay(c):
     d = common.scratch_dir("verif-r4-")
     try:
         ir = front.compile_module(c["module"], c["import_dirs"], d)
-        src, entries = structs.write_driver(ir, c["module"], d, align=c.get("align", 1))
+        src, entries = structs.write_driver(ir, c["module"], d, align=c.get("align", 1), writable=True)
         nparams = len(c["params"])
         call = "%s(p, n%s)" % (c["fn"], "".join(", a[%d]" % i for i in range(nparams)))
+        if c.get("kind") == "wtry":
+            x = c.get("x", 0)
+            bits = c.get("x_bits", 64)
+            call = "%s(p, n%s, static_cast<decltype(T_probe())>(%dULL))" % (c["fn"], "".join(", a[%d]" % i for i in range(nparams)), x)
+            call = "%s(p, n%s, (%s)%dULL)" % (c["fn"], "".join(", a[%d]" % i for i in range(nparams)),
+                                              {8: "unsigned char", 16: "unsigned short", 32: "unsigned", 64: "unsigned long long"}.get(bits, "unsigned long long"), x)
         main = os.path.join(d, "main.cc")
         body = c01.REPLAY_MAIN
         if c.get("align", 1) > 1:
